@@ -85,6 +85,7 @@ type Ctx struct {
 	bitInfo        map[string][2]int
 	declaredSym    map[string]bool
 	soft           map[int]int
+	views          map[string]types.Type // heap object (by reference term) viewed as raw bytes through unsafe.Pointer: its real element type
 	goalMode       int // >0 while a clause is evaluated as a proof goal (not as an assumption)
 }
 
